@@ -20,7 +20,7 @@ Definition five : list entry :=
 
 Definition hdr (c m : Z) (s : option Z) : header :=
   {| h_cnt := c; h_param := 61; h_interp := 4; h_track := 1; h_mode := m; h_start := s;
-     h_room := 10 ^ 15 |}.
+     h_room := 1000000000000000 |}.
 
 Definition sv (a e : Z) : sval := {| s_az := a; s_el := e; s_fits := true |}.
 
